@@ -22,6 +22,8 @@ _bm = _ilu.module_from_spec(_sp); _sp.loader.exec_module(_bm)
 # BudgetEnforcer::observe: proved in unit `budget`; here only its contract is used (callee contract)
 OBSERVE = dict([x for x in _bm.ITEMS if x['path'].endswith('/fn observe')][0])
 OBSERVE.update(trusted=True, props=[]); OBSERVE.pop('proofs', None); OBSERVE.pop('canaries', None)
+ALIAS_REPLAYED = dict([x for x in _bm.ITEMS if x['path'].endswith('/fn alias_will_be_replayed')][0])
+ALIAS_REPLAYED.update(trusted=True, props=[]); ALIAS_REPLAYED.pop('canaries', None)
 FINALIZE = dict([x for x in _bm.ITEMS if x['path'].endswith('/fn finalize')][0])
 FINALIZE.update(trusted=True, props=[]); FINALIZE.pop('canaries', None)
 L = 'src/live_events.rs'
@@ -42,7 +44,7 @@ ITEMS = location_types() + budget_types() + error_types() + [
 ] + parser_span_types() + location_fns(props=('C16',)) + [
     dict(src='src/de_error.rs', path='fn budget_error', props=['C07'],
          ensures=[('value', 'r == (Error::Budget { breach: breach, location: Location::UNKNOWN })')]),
-    OBSERVE, FINALIZE,
+    OBSERVE, FINALIZE, ALIAS_REPLAYED,
     dict(src=L, path='struct RecFrame'),
     dict(src=L, path='struct InjectFrame', derive='#[derive(Clone, Copy)]'),
     dict(src=L, path='struct LiveEvents'),
@@ -401,11 +403,18 @@ ITEMS = location_types() + budget_types() + error_types() + [
                   text='assert(self.inject@.len() == inj0 && inj0 + 1 <= self.alias_limits.max_replay_stack_depth); within_depth_limit = true;'),
              dict(before='self.inject.push(InjectFrame {', label='C08:an_alias_is_pushed_for_replay_only_after_both_limits_were_checked', props=['C08'],
                   text='assert(within_anchor_limit && within_depth_limit && self.inject@.len() == inj0);'),
+             dict(after='let location = location_from_span(&span);', ghost=True, text='let ghost b_tok = self.budget;'),
+             dict(before='self.inject.push(InjectFrame {', label='C07:when_an_alias_is_expanded_the_key_value_phase_of_the_budget_is_the_one_from_before_the_alias_token_so_the_replayed_node_counts_once', props=['C07'],
+                  text='''assert(self.budget is Some ==> b_tok is Some && ({ let s0 = b_tok.unwrap().abs().stack; let s2 = self.budget.unwrap().abs().stack;
+                        node_done(node_done(s0)) =~= s0 && s2 =~= s0 }));'''),
              dict(after='let location = location_from_span(&span);', text='lemma_frames_facts(f0);'),
              dict(after='let location = location_from_span(&span);', text='if self.budget is Some { lemma_budget_room(self.budget.unwrap()); }'),
              dict(after='}, _ => {} } }, _ => {} } }', label='budget_after_observe', text='''
                  if self.budget is Some { let b = self.budget.unwrap(); assert(within(b.abs(), b.budget, b.per_doc())); lemma_budget_ok_intro(b); }'''),
              dict(after='self.observe_budget_for_replay(&ev)?;', text='if self.budget is Some { lemma_budget_ok_intro(self.budget.unwrap()); }'),
+             # F44: the phase correction for an expanded alias keeps the enforcer consistent (callee contract of alias_will_be_replayed, proved in unit `budget`)
+             dict(before_re=r'if let Some\(ref mut budget\) = self\.budget \{\s*budget\.alias_will_be_replayed\(\);', optional=True, text='reveal(budget_ok);'),
+             dict(after_re=r'budget\.alias_will_be_replayed\(\);\s*\}', optional=True, text='reveal(budget_ok);'),
              # scalar arm: the delivered event is the raw scalar (text, anchor id, and style)
              dict(after=r'Event::Scalar(val, style, anchor_id, tag) => {', alt=[r'Event::Scalar(val, mut style, anchor_id, tag) => {'], ghost=True,
                   text='let ghost val0 = val; let ghost style0 = style;'),
